@@ -95,6 +95,18 @@ func init() {
 			e.runOthers()
 			return nil
 		},
+		// ghost counters shared between engine intrinsics and harness stubs
+		"vsymGhostGet": func(e *Exec, c *frame, fn *ssa.Function, a []Value) Value {
+			return mkInt(e.ghost[a[0].(Str).s])
+		},
+		"vsymGhostAdd": func(e *Exec, c *frame, fn *ssa.Function, a []Value) Value {
+			e.ghost[a[0].(Str).s]++
+			return nil
+		},
+		"vsymGhostSet": func(e *Exec, c *frame, fn *ssa.Function, a []Value) Value {
+			e.ghost[a[0].(Str).s] = e.concInt(a[1].(Sc), "vsymGhostSet")
+			return nil
+		},
 		"vsymGoroutineBase": func(e *Exec, c *frame, fn *ssa.Function, a []Value) Value { return nil },
 		"vsymLiveGoroutines": func(e *Exec, c *frame, fn *ssa.Function, a []Value) Value {
 			if e.cur != nil {
